@@ -125,6 +125,23 @@ def single_calls(rng, isa, sz, tier, writes_only=False):
             for rep in range(nrep):
                 a = pick_indices(rng, K, O, rep % 3)
                 calls.append('rv::%s<%s,%s,%d,%d,%d,%d,%d,%d,%d>("%s");' % (kind, T, ity, R, C, K, F, L, S, vi, idx_str(a)))
+    if not writes_only:
+        # the view as the source of an assignment to a 2-D / 3-D range view (two-index and multi-index members)
+        for q in range(3 if tier == "quick" else 8):
+            N = [V + 1, 2 * V + 1, 3][q % 3] if q < 3 else rng.randint(2, 2 * V + 2)
+            M = rng.randint(2, 3)
+            R = other(M, {M, N}); C = other(N, {R, M, N})
+            dyn, cst = q % 2, (q // 2) % 2
+            for rep in range(nrep):
+                a = pick_indices(rng, M, R, rep % 3); b = pick_indices(rng, N, C, (rep + 1) % 3)
+                calls.append('rv::to2d<%s,%s,%s,%d,%d,%d,%d,%d,%d>("%s","%s");' % (T, rng.choice(itys[:2]), itys[q % 3], R, C, M, N, dyn, cst, idx_str(a), idx_str(b)))
+        for q in range(2 if tier == "quick" else 6):
+            P2 = [V, V + 1][q % 2] if q < 2 else rng.randint(1, V + 2)
+            P0, P1 = rng.randint(1, 3), rng.randint(2, 3)
+            D0, D1, D2 = other(P0, {P0}), other(P1, {P1}), other(P2, {P2})
+            for rep in range(nrep):
+                a = pick_indices(rng, P0 * P1 * P2, D0 * D1 * D2, rep % 3)
+                calls.append('rv::to3d<%s,%s,%d,%d,%d,%d,%d,%d,%d,%d>("%s");' % (T, itys[q % 3], D0, D1, D2, P0, P1, P2, 1 - q % 2, q % 2, idx_str(a)))
     return calls
 
 def exhaustive_calls(rng, isa, sz, tier, writes_only=False):
@@ -185,7 +202,56 @@ def sym_groups(tier, seed):
     return groups
 
 def real_groups(tier, seed):
-    return []
+    """real element types per ISA against plain loops (the gather helper is dispatched on sizeof(T) and the ISA)"""
+    rng = random.Random(seed * 5407 + 7)
+    isas = core.QUICK_ISAS if tier == "quick" else core.ALL_ISAS
+    groups = []
+    itys = ["int", "long", "unsigned long"]
+    cnt = 3 if tier == "quick" else 6
+    for isa in isas:
+        for ti, t in enumerate(["float", "double", "int32_t", "int64_t"]):
+            V = max(LANES[isa] // (4 if t in ("float", "int32_t") else 8), 1)
+            def other(lo, avoid):
+                x = lo + rng.randint(0, 3)
+                while x in avoid: x += 1
+                return x
+            calls = []
+            ms = sizes_around(V, rng, 2 if tier == "quick" else 6)
+            for M in ms:
+                calls.append("rr::flat1<%s,%s,%d,%d>(%du,%d);" % (t, rng.choice(itys), other(M + 1, {M}), M, rng.randrange(1 << 20), cnt))
+            for _ in range(1 if tier == "quick" else 4):
+                tot = rng.choice([2 * V + 2, V + 1, 3 * V, 6])
+                M = rng.choice([d for d in range(1, tot + 1) if tot % d == 0 and d <= 6] or [1]); N = tot // M
+                R = other(max(M, 2), {M, N}); C = other(max(N, 2), {R, M, N})
+                calls.append("rr::ii<%s,%s,%s,%d,%d,%d,%d>(%du,%d);" % (t, rng.choice(itys), rng.choice(itys), R, C, M, N, rng.randrange(1 << 20), cnt))
+            if tier == "thorough" or ti % 2 == 0:
+                tot = rng.choice([V + 1, 2 * V]); P = rng.choice([d for d in range(1, tot + 1) if tot % d == 0]); Q = tot // P
+                R = rng.randint(2, 5); C = other((tot + R - 1) // R + 1, {R, P, Q})
+                calls.append("rr::flat2<%s,%s,%d,%d,%d,%d>(%du,%d);" % (t, rng.choice(itys), R, C, P, Q, rng.randrange(1 << 20), cnt))
+            swap = ti % 2
+            for sw in ((swap,) if tier == "quick" else (0, 1)):
+                M = rng.choice(ms)
+                if not sw: R = other(max(M, 2), {M}); C = other(3, {R, M})
+                else: C = other(max(M, 2), {M}); R = other(3, {C, M})
+                calls.append("rr::in_<%s,%s,%s,%d,%d,%d,%d>(%du,%d);" % (t, rng.choice(itys), rng.choice(["int", "long", "short"]), R, C, M, sw, rng.randrange(1 << 20), cnt))
+            for sw in ((1 - swap,) if tier == "quick" else (0, 1)):
+                D = rng.randint(3, 8); F = rng.randrange(1, D - 1); S = rng.randint(1, 2); L = rng.choice([-1, rng.randint(F + 1, D)])
+                fsz = ((D if L < 0 else L) - F + S - 1) // S
+                K = max(1, rng.choice([V + 1, 2 * V]) // fsz)
+                O = other(max(K, 2), {K, D, fsz})
+                R, C = (O, D) if not sw else (D, O)
+                calls.append("rr::fs<%s,%s,%d,%d,%d,%d,%d,%d,%d>(%du,%d);" % (t, rng.choice(itys), R, C, K, F, L, S, sw, rng.randrange(1 << 20), cnt))
+            calls.append("rr::filt<%s,%d>(%du,%d);" % (t, 2 * V + 3, rng.randrange(1 << 20), cnt + 2))
+            if tier == "thorough" or ti % 2 == 1:
+                calls.append("rr::filt<%s,3,%d>(%du,%d);" % (t, V + 1, rng.randrange(1 << 20), cnt + 2))
+            groups.append({"key": "%s/%s" % (isa, t), "header": "random_views_real.h", "isa": isa, "opt": "-O2", "calls": calls, "pre": "static bool g_verbose=false;"})
+            if tier == "thorough" or (ti + isas.index(isa)) % 4 == 0:
+                groups.append({"key": "%s/%s/vea" % (isa, t), "header": "random_views_real.h", "isa": isa, "opt": "-O2", "calls": calls[:4],
+                               "defs": ["-DFASTOR_USE_VECTORISED_EXPR_ASSIGN"], "pre": "static bool g_verbose=false;"})
+    only = os.environ.get("VERIF_C19_ONLY")
+    if only:
+        groups = [g for g in groups if re.search(only, g["key"])]
+    return groups
 
 def nontrivial(inp, mo):
     d = symrun.kv(inp)
@@ -204,11 +270,18 @@ def run(tier, seed):
              "over the symbolic carrier; exhaustive: every index vector of length <= 3 over parents of <= 5 elements and every pair of per-axis index vectors on small 2-D parents, "
              "all 2^n masks n <= 10 (quick) / 12 (thorough); seeded: lengths around multiples of the vector width for all seven overloads; "
              "non-trivial = every index-view case, and mask cases whose mask is neither all-true nor all-false",
-        nontrivial=nontrivial, per_tu=14)
+        nontrivial=nontrivial, per_tu=28)
 
 def sym_call_of(inp):
     d = symrun.kv(inp)
     T = "Sym" + d["sz"]
+    if inp.startswith("rview2") or inp.startswith("rview3"):
+        ity = [ITY.get(x, "short") for x in d["ity"].split("/")]
+        if inp.startswith("rview2"):
+            call = 'rv::to2d<%s,%s,%s,%s,%s,%s,%s,%s,%s>("%s","%s");' % (T, ity[0], ity[1], d["r"], d["c"], d["m"], d["n"], d["dyn"], d["cst"], d["i0"], d["i1"])
+        else:
+            call = 'rv::to3d<%s,%s,%s,%s,%s,%s,%s,%s,%s,%s>("%s");' % (T, ity[0], d["d0"], d["d1"], d["d2"], d["p0"], d["p1"], d["p2"], d["dyn"], d["cst"], d["i0"])
+        return {"key": "replay", "header": HDR, "isa": d["cfg"], "calls": [call]}
     act = 0 if d["act"] == "read" else 1
     want = (act, OPS.index(d["op"]), TREES.index(d["E"]), int(d.get("cst", "0")))
     vi = VARS.index(want)
